@@ -14,8 +14,7 @@ media, settings, triggers, type-table hints):
           the first dump (dump, load, dump), (b) XForm equal to the original's.
   Oracle = text equality of XForms / equality of dicts; a difference is broken down by c16_obs.diff_items
   into one failure per lost/changed node, which the matchers triage into the known loss shapes
-  (F12: group bind, extra choice columns; F37: hint of types whose type-table entry has a hint, itext of a
-  group's messages, reload crash) — anything else is a VIOLATION.
+  (F39: osm dump crash; F40/F41: add_none_option) — anything else is a VIOLATION.
   Correspondence: Lean `JV.print` = `json.dumps` and Lean `JV.parse` = `json.loads` on the `_pyxform` dict and
   on the survey dump of every case, and on adversarial values/texts; Lean `ToJson.toJson` = `to_json_dict` on
   the element trees of the generated surveys.
@@ -82,6 +81,16 @@ def element_index(survey):
     return idx
 
 
+def workbook_json(form: dict) -> dict:
+    """workbook → JSON-serialisable dict, exactly as convert() produces it (before the builder sees it)."""
+    from pyxform.xls2json import workbook_to_json
+    from pyxform.xls2xform import get_xlsform
+
+    wb = get_xlsform(xlsform=copy.deepcopy(impl.wb_dict(c16_gen.strip_meta(form))), file_type=None)
+    return workbook_to_json(workbook_dict=wb, form_name=None, fallback_form_name=wb.fallback_form_name,
+                            default_language=None, warnings=[])
+
+
 def run_paths(form: dict) -> dict:
     """Everything the property observes for one form (implementation only)."""
     from pyxform.builder import create_survey_element_from_dict, create_survey_element_from_json
@@ -90,7 +99,15 @@ def run_paths(form: dict) -> dict:
     out = {"class": r["class"], "ok": r["ok"], "msg": r.get("msg", "")}
     if not r["ok"]:
         return out
-    pyx, x0 = r["_pyxform"], r["xform"]
+    x0 = r["xform"]
+    # the dict as workbook_to_json returns it (ConvertResult._pyxform has already been through the builder,
+    # which may write into it — e.g. add_none_option, the survey title)
+    try:
+        pyx = workbook_json(form)
+    except Exception as e:  # noqa: BLE001
+        out.update(x0=x0, pyx=r["_pyxform"], survey=r["_survey"],
+                   problems=[("p1-crash", f"workbook_to_json alone: {type(e).__name__}: {e} @ {site_of(e)}", None)])
+        return out
     out.update(x0=x0, pyx=pyx, survey=r["_survey"], problems=[])
     P = out["problems"]
     # ---- path 1
@@ -185,6 +202,28 @@ def find_json(j: dict, xpath: str):
     return cur
 
 
+def _earlier_select_all(pyx: dict, nodeset) -> bool:
+    """Is the question at `nodeset` a 'select all that apply' whose list is used by an earlier one in the
+    workbook JSON (generated table-list header rows included)?"""
+    name = (nodeset or "").rsplit("/", 1)[-1]
+    seen = set()
+
+    def walk(d):
+        for c in d.get("children", []) or []:
+            if not isinstance(c, dict):
+                continue
+            if str(c.get("type", "")).startswith("select all that apply"):
+                if c.get("name") == name:
+                    return c.get("itemset") in seen
+                seen.add(c.get("itemset"))
+            r = walk(c)
+            if r is not None:
+                return r
+        return None
+
+    return bool(walk(pyx))
+
+
 def classify_item(item, obs) -> tuple[str, dict]:
     """signature + facts used by the matchers: which element, which class, what the dump says."""
     from pyxform.question import Question
@@ -205,6 +244,7 @@ def classify_item(item, obs) -> tuple[str, dict]:
             dump_has_bind=("bind" in (find_json(j1, ns) or {})),
             before=before,
             after=after,
+            earlier_select_all_same_list=_earlier_select_all(obs.get("pyx") or {}, ns),
         )
         return "bind", facts
     if kind == "itext":
@@ -266,52 +306,50 @@ def classify_item(item, obs) -> tuple[str, dict]:
 # ---- matchers: one per loss shape (input shape + code site), see known_findings.d/C16.json
 
 
-def m_group_bind(f: Failure) -> bool:
-    """GroupedSection.to_json_dict (section.py:275-283) deletes `bind`: the group's <bind> is gone."""
+NONE_CONSTRAINT = "(.='none' or not(selected(., 'none')))"
+
+
+def _none_setting(f: Failure) -> bool:
+    st = (f.case.get("form", {}).get("settings") or [{}])[0]
+    return str(st.get("add_none_option", "")).strip().lower() in ("yes", "true", "true()", "1")
+
+
+def _constraints(x):
+    def c(side):
+        if not side:
+            return None
+        return dict((k, v) for k, v in side[0]).get("constraint", "")
+    return c(x.get("before")), c(x.get("after"))
+
+
+def m_none_shared_list(f: Failure) -> bool:
+    """builder._add_none_option_to_select_all_that_apply (builder.py:166-180) appends the 'none' choice to the
+    list object it is given; xls2json shares one list object between all selects of a list, so in a direct
+    conversion only the first select_multiple of a list gets the none-constraint, while after a JSON text
+    round trip (separate list objects) every one gets it."""
     x = f.extra
-    return (
-        f.kind == "p2-xform" and x.get("item") == "bind" and x.get("lost") is True
-        and x.get("el_class") == "GroupedSection" and x.get("el_has_bind") is True and x.get("dump_has_bind") is False
-    )
-
-
-def m_group_message_itext(f: Failure) -> bool:
-    """…and with the bind go the itext entries of the group's constraint/required messages."""
-    x = f.extra
-    return (
-        f.kind == "p2-xform" and x.get("item") == "itext" and x.get("lost") is True
-        and x.get("el_class") == "GroupedSection" and x.get("what") in ("jr:constraintMsg", "jr:requiredMsg")
-        and x.get("dump_has_bind") is False
-        and any(k in (x.get("el_bind_keys") or []) for k in ("jr:constraintMsg", "jr:requiredMsg"))
-    )
-
-
-def m_extra_choice_cols(f: Failure) -> bool:
-    """SurveyElement.to_json_dict deletes `extra_data` (survey_element.py:307-312): an Option's extra columns."""
-    x = f.extra
-    return (
-        f.kind == "p2-xform" and x.get("item") == "choice-col" and x.get("lost") is True
-        and x.get("in_extra_data") is True and x.get("in_dump") is False
-    )
-
-
-def m_qtd_hint(f: Failure) -> bool:
-    """Question.to_json_dict deletes every key of the type-table entry (question.py:229-233); for the four
-    types whose entry has a `hint`, the user's hint is deleted and the table's hint comes back on reload."""
-    x = f.extra
-    if f.kind != "p2-xform" or not x.get("qtd_hint") or x.get("dump_has_hint") is not False:
+    if f.kind not in ("p1-xform", "p2-xform") or x.get("item") != "bind" or not _none_setting(f):
         return False
-    if x.get("item") == "body":
-        return x.get("tag") == "hint" and x.get("el_hint") not in (None, x.get("qtd_hint"))
-    if x.get("item") == "itext":
-        # the user's translated hint is lost or replaced (padding of other languages for that id with it);
-        # the table's hint is an untranslated string, so it may come back under the language "default"
-        return x.get("what") == "hint" and (x.get("text_id") or "").endswith(":hint")
-    return False
+    b, a = _constraints(x)
+    if b is None or a is None or NONE_CONSTRAINT in b:
+        return False
+    if a != (b + " and " + NONE_CONSTRAINT if b else NONE_CONSTRAINT):
+        return False
+    return x.get("earlier_select_all_same_list") is True
 
 
-def _with_derived(fid, m):
-    return lambda f: f.extra.get("derived_from") == fid or (not f.extra.get("derived_from") and m(f))
+def m_none_reapplied(f: Failure) -> bool:
+    """…and the setting add_none_option stays in the survey's dump together with the already extended
+    constraint, so every reload appends the none-constraint once more (builder.py:166-180)."""
+    x = f.extra
+    if not _none_setting(f):
+        return False
+    if f.kind == "p2-dump-unstable":
+        return ".bind.constraint:" in f.detail and f.detail.count(NONE_CONSTRAINT) >= 2
+    if f.kind != "p2-xform" or x.get("item") != "bind":
+        return False
+    b, a = _constraints(x)
+    return bool(b) and b.endswith(NONE_CONSTRAINT) and a == b + " and " + NONE_CONSTRAINT
 
 
 def m_osm_dump_crash(f: Failure) -> bool:
@@ -324,12 +362,14 @@ def m_osm_dump_crash(f: Failure) -> bool:
     )
 
 
+def _with_derived(fid, m):
+    return lambda f: f.extra.get("derived_from") == fid or (not f.extra.get("derived_from") and m(f))
+
+
 MATCHERS = {
     "F39-osm-question-dump-crash": m_osm_dump_crash,
-    "F12-group-bind-dropped": m_group_bind,
-    "F37-group-message-itext-dropped": m_group_message_itext,
-    "F12-extra-choice-columns-dropped": m_extra_choice_cols,
-    "F37-type-table-hint-overrides-user-hint": m_qtd_hint,
+    "F40-add-none-option-shared-list": m_none_shared_list,
+    "F41-add-none-option-reapplied-on-reload": m_none_reapplied,
 }
 MATCHERS = {k: _with_derived(k, v) for k, v in MATCHERS.items()}
 
@@ -623,6 +663,11 @@ def directed_forms():
         {"type": "text", "name": "q", "label::parent": "Q", "label::extra_data": "Q2", "hint::parent": "H", "bind::hint": "x",
          "bind::control": "y", "body::bind": "z", "instance::parent": "w"},
         {"type": "end group"}]}
+    yield "add-none-option-one", {"survey": [{"type": "select_multiple l", "name": "s", "label": "S"}], "choices": ch[1:],
+                                  "settings": [{"add_none_option": "yes"}]}
+    yield "add-none-option-shared", {"survey": [{"type": "select_multiple l", "name": "s", "label": "S", "constraint": ". != 'b'"},
+                                                {"type": "select_multiple l", "name": "s2", "label": "S2"}], "choices": ch[1:],
+                                     "settings": [{"add_none_option": "true"}]}
     yield "group-appearance-only", {"survey": [{"type": "begin group", "name": "g", "label": "G", "appearance": "field-list"},
                                                {"type": "select_one l", "name": "s", "label": "S", "parameters": "randomize=true seed=3"},
                                                {"type": "end group"}], "choices": ch[1:]}
@@ -633,6 +678,9 @@ def explore(ctx, factor, bs):
     if factor == 1:
         for name, form in directed_forms():
             form_case(ctx, form, origin="directed:" + name)
+    # family: section nests with per-level dynamic defaults / triggers (code that walks the tree by `type`)
+    for i in range(ctx.pick(60, 1500) * factor):
+        form_case(ctx, c16_gen.nest_form(rng), origin="nest")
     n = ctx.pick(450, 9000) * factor
     for i in range(n):
         form = c16_gen.c16_form(rng, big=not ctx.quick() and rng.random() < 0.3, adversarial_text=rng.random() < 0.3)
